@@ -143,7 +143,7 @@ func (p *Submit) IDecode(data []byte) error {
 	p.MessageCoding = b.ReadUint8()
 	p.MessageType = b.ReadUint8()
 	p.MessageLength = b.ReadUint32()
-	p.MessageContent = string(b.ReadNBytes(int(p.MessageLength)))
+	p.MessageContent = string(b.ReadNBytes(messageLen(p.MessageLength)))
 	p.Reserved = b.ReadCStringN(8)
 	return b.Error()
 }
